@@ -207,11 +207,16 @@ def handleUnsubscribe (s : NodeSt) (sid : Nat) (space : String) (topics : List S
     if removed.isEmpty then s1 else s1.removeTags sid (removed.map (interestTag space))
   | _, _ => s
 
+/-- the `seen` map of `Broadcast`: keep the first occurrence of every stream id -/
+def dedupNat : List Nat → List Nat → List Nat
+  | [], _ => []
+  | x :: xs, seen => if seen.contains x then dedupNat xs seen else x :: dedupNat xs (x :: seen)
+
 /-- `pool.Broadcast(tags…)`: streams carrying one of the tags; with more than one tag a stream is
 taken once (`seen`), with a single tag the tag's stream list is taken as it is. -/
 def broadcast (s : NodeSt) (tags : List String) : List Nat :=
   let all := tags.flatMap (fun tag => (s.pool.filter (fun st => st.tags.contains tag)).map (·.sid))
-  if tags.length > 1 then all.eraseDups else all
+  if tags.length > 1 then dedupNat all [] else all
 
 /-- `fanout` -/
 def fanout (s : NodeSt) (space topic : String) : List Nat :=
